@@ -57,7 +57,16 @@ def regwrite(m, value, reads, extra_req=(), err="result1 == nil", pc=None):
         emit(f"  ensures result1 == nil ==> result.NextPc == {pc}")
     emit("  assigns nothing")
 
+def defines(m, reads, writes):
+    def cnt(regs):
+        if not regs: return "0"
+        return " + ".join(f"(self.{x} == r ? 1 : 0)" for x in regs)
+    emit(f"define readCount(self *{m}, r RegisterType) = {cnt(reads)}")
+    emit(f"define writeCount(self *{m}, r RegisterType) = {cnt(writes)}")
+    emit(f"define insType(self *{m}) = {TYPE[m]}")
+
 def sets(m, reads, writes):
+    defines(m, reads, writes)
     def setspec(regs):
         if len(regs) == 0: return "len(result) == 0"
         if len(regs) == 1: return f"len(result) == 1 && result[0] == op.{regs[0]}"
